@@ -159,6 +159,11 @@ func writeTag(w io.Writer, tag *Tag, timestampDelta uint32) error {
 
 	// timestamp
 	timestamp := tag.Timestamp - timestampDelta
+	if timestampDelta != 0 && timestamp >= 1<<31 {
+		// 比该客户端第一个 Tag 还早的 Tag(如 GOP 重放中早于关键帧的音频)：
+		// 无符号相减会回绕成约 49 天后的时间戳，这里钳到 0
+		timestamp = 0
+	}
 	binary.BigEndian.PutUint32(tagHeader[offset:], (timestamp<<8)|(timestamp>>24))
 	offset += 4
 
